@@ -48,7 +48,7 @@ def tla_seq(kinds):
     return "<<" + ", ".join('"%s"' % k for k in kinds) + ">>"
 
 
-def one_config(idx, n, kinds, sc, nsim, nfree, seed, step_timeout_ms, flavours=None):
+def one_config(idx, n, kinds, sc, nsim, nfree, seed, step_timeout_ms, flavours=None, extra_args=None):
     name = "c%d" % idx
     d = sc.path(name)
     os.makedirs(d)
@@ -78,6 +78,8 @@ def one_config(idx, n, kinds, sc, nsim, nfree, seed, step_timeout_ms, flavours=N
             "--n", n, "--kind", ",".join(kinds), "--step-timeout-ms", step_timeout_ms]
     if flavours:
         args += ["--flavour", ",".join(flavours)]
+    if extra_args:
+        args += extra_args
     vlib.run_harness(args, timeout=1800)
     tv = vlib.validate_trace("TracePool_%s" % name, trace, spec_dir=d, heap="3g")
     events = vlib.read_ndjson(trace)
@@ -111,6 +113,10 @@ def run(tier, replay):
     with vlib.Scratch("c07") as sc:
         with ThreadPoolExecutor(max_workers=4) as ex:
             futs = [ex.submit(one_config, i, n, kinds, sc, nsim, nfree, vlib.seed(), 3000) for i, (n, kinds) in enumerate(menu)]
+            # idle time as a dimension: N tasks, then the pool is left alone (35 s; thorough 65 s and 125 s), then 2N+1 more tasks
+            for j, secs in enumerate([35] if tier == "quick" else [65, 125]):
+                futs.append(ex.submit(one_config, 900 + j, 2, ["rdv", "rdv", "rdv", "rdv", "instant", "rdv", "rdv"], sc, 2, 1, vlib.seed(), 3000,
+                                      None, ["--idle-after", 2, "--idle-ms", secs * 1000]))
             for f in futs:
                 results.append(f.result())
     verdict = vlib.Verdict("C07")
